@@ -566,17 +566,19 @@ func (c *checker) rangeEnds(s *vspec, es []entry, limit int) {
 					continue
 				}
 			}
+			if !s.encodes() {
+				// single-field key -> single-field key: the call sites (fkeyRangeEnd) do not use rangeEnd for an
+				// unencoded source index (exact match only); that path is observed end to end by the db-level
+				// part of this check (class C12/db/...), not emulated here
+				c.rep.Count("rangeend_raw_single_field_left_to_db_level", 1)
+				continue
+			}
 			var end string
 			if p, _ := vk.Catch(func() { end = db19.VerifC12RangeEnd(key, n) }); p != nil {
 				c.rep.Violate("C12/panic/rangeEnd", fmt.Sprintf("key=%s n=%d", q(key), n), fmt.Sprint(p))
 				continue
 			}
-			cl := "C12/rangeend-callsite"
-			if !s.encodes() {
-				cl = "C12/rangeend-callsite-unencoded-source-index"
-				c.rep.Count("rangeend_raw_single_field", 1)
-			}
-			c.rangeCheck(cl, s, es, pre, key, end, "")
+			c.rangeCheck("C12/rangeend-callsite", s, es, pre, key, end, "")
 		}
 	}
 }
